@@ -10,8 +10,7 @@ NOT_APPLICABLE = {
            'selection over stubbed word solvers) was planned (DESIGN.md §4) but not built.',
     'C15': 'Not claimed in this revision: the direct informed sampler is Eigen SVD/rotation + tgamma/pow measure + hyperspheroid geometry, '
            'outside the decidable fragment; the accept/reject control logic of the rejection sampler was planned (DESIGN.md §4) but not built.',
-    'C16': 'Not claimed in this revision: constraint projection (Newton iterations, Eigen linear algebra, atlas charts) is outside the decidable '
-           'fragment; the traversal-logic slice of ProjectedStateSpace::discreteGeodesic over stub constraints was planned (DESIGN.md §4) but not built.',
+
     'C19': 'Thread schedules of std::thread/std::mutex code are outside the encodable fragment of the IR->C->CBMC route '
            '(atomics are translated sequentially, libstdc++ threading bottoms out in pthread/futex externs, multi-threaded '
            'planners are whole-program runs); a hand-written interleaving model would not be a check of the real code. See DESIGN.md C19.',
